@@ -103,12 +103,16 @@ def mutate(prog, kind, draw):
     if kind in ("return_in_static_if_in_branch", "return_in_static_if_in_loop"):
         if p.params[0][1] == "BOOL":
             return None
-        ret = "if G_FLAG:\n    return " + ", ".join(scriptgen.expr_src(e) for e in p.returns)
+        ret = "if G_FLAG:\n    return " + ", ".join(scriptgen.expr_src(Call("Identity", [e], {})) for e in list(p.returns) + [Var("zz")])  # (as many values as the function returns, computed here)
+        # (the branch / loop has a live result, so that nothing else about the program can be the reason for a refusal)
         if kind.endswith("branch"):
             cond = Bin(">", Call("ReduceSum", [Var(x)], {"keepdims": 0}), Lit(0))
-            body.append(If(cond, [Assign(["zz"], Call("Identity", [Var(x)], {})), Raw(ret)], [Assign(["zz"], Call("Identity", [Var(x)], {}))]))
+            body.append(If(cond, [Assign(["zz"], Call("Identity", [Var(x)], {})), Raw(ret)], [Assign(["zz"], Call("Neg", [Var(x)], {}))]))
         else:
-            body.append(For("q", Lit(2), [Assign(["zz"], Call("Identity", [Var(x)], {})), Raw(ret)]))
+            body.append(Assign(["zz"], Call("Identity", [Var(x)], {})))
+            body.append(For("q", Lit(2), [Assign(["zz"], Bin("+", Var("zz"), Var(x))), Raw(ret)]))
+        p.returns = list(p.returns) + [Var("zz")]
+        p.ret_types = list(p.ret_types) + [(p.params[0][1], p.params[0][2])]
         return p
     if kind == "return_in_branch":
         if p.params[0][1] == "BOOL":
